@@ -355,6 +355,8 @@ class SDatetime:
                 return SDatetime(s.us) if s.off is not None else s
             if isinstance(tz, _dt.timezone):
                 return SDatetime(s.us, tz.utcoffset(None) // US)
+        if set(kw) == {"microsecond"} and kw["microsecond"] == 0:
+            return SDatetime(s.us - s.us % 1000000, s.off)          # truncated to the whole second
         raise Abort("unsupported", "SDatetime.replace")
 
     def astimezone(s, tz=None):
